@@ -117,6 +117,7 @@ package cdcn
 //@   ensures[C12] result.1 != nil && pready(this)
 //@   ensures[C12] result.2 ==> ttype(result.1) == expectedType && result.0 == tvalue(result.1)
 
+// a diagnostic names the token at which the sub-parser that just failed stopped (hints before every formatError call)
 // every parse* method returns the token at which it stopped (never nil): the callers hand it to formatError
 // accepted literals are never silently altered: the value is exactly what the token text denotes
 // (token types: boolean 1, complex 2, float 6, hexadecimal 7, integer 8, nil 9, rune 10, string 12)
@@ -143,6 +144,8 @@ package cdcn
 //@   ensures[C12] result.1 != nil && pready(this)
 //@ func (*parser_).parseContext
 //@   props C12 C19
+//@   hint[C12] before call formatError#1: $arg1 == lastresult(parseToken).1
+//@   hint[C12] before call formatError#2: $arg1 == lastresult(parseToken).1
 //@   safe
 //@   requires pready(this)
 //@   modifies view(this.next_), view(this.tokens_), got(this.tokens_)
@@ -154,7 +157,10 @@ package cdcn
 //@   modifies view(this.next_), view(this.tokens_), got(this.tokens_)
 //@   ensures[C12] result.1 != nil && pready(this)
 //@ func (*parser_).parseCollection
-//@   props C12 C19
+//@   props C12 C11 C19
+//@   hint[C12] before call formatError#1: $arg1 == lastresult(parseContext).1
+//@   hint[C11] before call formatError#2: context == "Catalog"
+//@   hint[C11] before call formatError#3: context == "Map"
 //@   safe
 //@   requires pready(this)
 //@   modifies view(this.next_), view(this.tokens_), got(this.tokens_)
@@ -167,6 +173,8 @@ package cdcn
 //@     decreases *
 //@ func (*parser_).parseSequence
 //@   props C12 C19
+//@   hint[C12] before call formatError#1: $arg1 == lastresult(parseItems).1
+//@   hint[C12] before call formatError#2: $arg1 == lastresult(parseToken).1
 //@   safe
 //@   requires pready(this)
 //@   modifies view(this.next_), view(this.tokens_), got(this.tokens_)
@@ -191,6 +199,7 @@ package cdcn
 //@   ensures[C12] result.2 ==> result.0 != nil
 //@ func (*parser_).parseInlineValues
 //@   props C12 C19
+//@   hint[C12] before call formatError#1: $arg1 == lastresult(parseValue).1
 //@   safe
 //@   requires pready(this)
 //@   modifies view(this.next_), view(this.tokens_), got(this.tokens_)
@@ -201,6 +210,8 @@ package cdcn
 //@     decreases *
 //@ func (*parser_).parseMultilineValues
 //@   props C12 C19
+//@   hint[C12] before call formatError#1: $arg1 == lastresult(parseValue).1
+//@   hint[C12] before call formatError#2: $arg1 == lastresult(parseToken).1
 //@   safe
 //@   requires pready(this)
 //@   modifies view(this.next_), view(this.tokens_), got(this.tokens_)
@@ -211,6 +222,7 @@ package cdcn
 //@     decreases *
 //@ func (*parser_).parseAssociation
 //@   props C12 C19
+//@   hint[C12] before call formatError#1: $arg1 == lastresult(parseValue).1
 //@   safe
 //@   requires pready(this)
 //@   modifies view(this.next_), view(this.tokens_), got(this.tokens_)
@@ -225,6 +237,7 @@ package cdcn
 //@   ensures[C12] result.2 ==> result.0 != nil && nonnil(view(result.0))
 //@ func (*parser_).parseInlineAssociations
 //@   props C12 C19
+//@   hint[C12] before call formatError#1: $arg1 == lastresult(parseAssociation).1
 //@   safe
 //@   requires pready(this)
 //@   modifies view(this.next_), view(this.tokens_), got(this.tokens_)
@@ -235,6 +248,7 @@ package cdcn
 //@     decreases *
 //@ func (*parser_).parseMultilineAssociations
 //@   props C12 C19
+//@   hint[C12] before call formatError#1: $arg1 == lastresult(parseToken).1
 //@   safe
 //@   requires pready(this)
 //@   modifies view(this.next_), view(this.tokens_), got(this.tokens_)
@@ -253,6 +267,8 @@ package cdcn
 // every call works on a token queue and a push-back stack of its own: nothing is carried over from earlier calls
 //@ func (*parser_).ParseSource
 //@   props C12 C11 C19
+//@   hint[C12] before call formatError#1: $arg1 == lastresult(parseCollection).1
+//@   hint[C12] before call formatError#2: $arg1 == lastresult(parseToken).1
 //@   safe
 //@   modifies everything
 //@   ensures[C11] localfresh(this.tokens_) && localfresh(this.next_)
@@ -358,6 +374,29 @@ package cdcn
 //@   nopanic
 //@   noinv
 //@   modifies sbtext(fieldaddr(this, result_))
+// numbers are written in strconv's shortest form that parses back to exactly the same value (an assumed property of
+// strconv for precision -1 at the full bit size, base 10 for integers, base 16 for unsigned): the arguments are pinned
+//@ func (*formatter_).formatFloat
+//@   props C10 C19
+//@   safe
+//@   nopanic
+//@   noinv
+//@   modifies sbtext(fieldaddr(this, result_))
+//@   hint[C10] before call FormatFloat#1: $arg1 == float && $arg2 == 71 && $arg3 == -1 && $arg4 == 64
+//@ func (*formatter_).formatInteger
+//@   props C10 C19
+//@   safe
+//@   nopanic
+//@   noinv
+//@   modifies sbtext(fieldaddr(this, result_))
+//@   hint[C10] before call FormatInt#1: $arg1 == integer && $arg2 == 10
+//@ func (*formatter_).formatUnsigned
+//@   props C10 C19
+//@   safe
+//@   nopanic
+//@   noinv
+//@   modifies sbtext(fieldaddr(this, result_))
+//@   hint[C10] before call FormatUint#1: $arg1 == unsigned && $arg2 == 16
 //@ func (*formatter_).appendNewline
 //@   props C10 C19
 //@   safe
@@ -537,8 +576,7 @@ package cdcn
 //@   invariant this.parser_ != nil
 //@ func (*notationClass_).Make
 //@   props C19
-//@   nopanic
-//@   ensures fresh(result) && result != nil
+//@   implements NotationClassLike.Make
 //@   ensures[C19] fresh(nparser(result))
 //@ func (*notation_).FormatValue
 //@   props C19
